@@ -4,6 +4,7 @@
  * with every aliasing pattern.  Only names declared in the public headers under include/ are used.
  * Compiled once per build configuration with exactly the library's flags.
  */
+#pragma clang diagnostic ignored "-Winvalid-offsetof"
 #include <stddef.h>
 #include <stdint.h>
 #include <string.h>
@@ -50,6 +51,35 @@ EX size_t vk_sizeof(const char* n) {
     S("lq_secretkey", lqibe::SecretKey) S("lq_ciphertext", lqibe::Ciphertext)
 #undef S
     return 0;
+}
+
+
+/* member offsets of the scheme structs (and of the C mirror structs: see C19) */
+EX long vk_offsetof(const char* n) {
+#define O(name, T, m) if (!strcmp(n, name)) return (long) offsetof(T, m);
+    O("wk_attribute.id", wkdibe::Attribute, id) O("wk_attribute.idx", wkdibe::Attribute, idx) O("wk_attribute.omitFromKeys", wkdibe::Attribute, omitFromKeys)
+    O("wk_attributelist.attrs", wkdibe::AttributeList, attrs) O("wk_attributelist.length", wkdibe::AttributeList, length)
+    O("wk_attributelist.omitAllFromKeysUnlessPresent", wkdibe::AttributeList, omitAllFromKeysUnlessPresent)
+    O("wk_params.g", wkdibe::Params, g) O("wk_params.g1", wkdibe::Params, g1) O("wk_params.g2", wkdibe::Params, g2) O("wk_params.g3", wkdibe::Params, g3)
+    O("wk_params.pairing", wkdibe::Params, pairing) O("wk_params.hsig", wkdibe::Params, hsig) O("wk_params.signatures", wkdibe::Params, signatures)
+    O("wk_params.h", wkdibe::Params, h) O("wk_params.l", wkdibe::Params, l)
+    O("wk_ciphertext.a", wkdibe::Ciphertext, a) O("wk_ciphertext.b", wkdibe::Ciphertext, b) O("wk_ciphertext.c", wkdibe::Ciphertext, c)
+    O("wk_signature.a0", wkdibe::Signature, a0) O("wk_signature.a1", wkdibe::Signature, a1)
+    O("wk_freeslot.hexp", wkdibe::FreeSlot, hexp) O("wk_freeslot.idx", wkdibe::FreeSlot, idx)
+    O("wk_secretkey.a0", wkdibe::SecretKey, a0) O("wk_secretkey.a1", wkdibe::SecretKey, a1) O("wk_secretkey.l", wkdibe::SecretKey, l)
+    O("wk_secretkey.signatures", wkdibe::SecretKey, signatures) O("wk_secretkey.bsig", wkdibe::SecretKey, bsig) O("wk_secretkey.b", wkdibe::SecretKey, b)
+    O("wk_masterkey.g2alpha", wkdibe::MasterKey, g2alpha) O("wk_precomputed.prodexp", wkdibe::Precomputed, prodexp)
+    O("lq_params.p", lqibe::Params, p) O("lq_params.sp", lqibe::Params, sp) O("lq_id.q", lqibe::ID, q) O("lq_masterkey.s", lqibe::MasterKey, s)
+    O("lq_secretkey.sq", lqibe::SecretKey, sq) O("lq_ciphertext.rp", lqibe::Ciphertext, rp) O("lq_idhash.hash", lqibe::IDHash, hash)
+    O("g1affine.x", G1Affine, x) O("g1affine.y", G1Affine, y) O("g1affine.infinity", G1Affine, infinity)
+    O("g2affine.x", G2Affine, x) O("g2affine.y", G2Affine, y) O("g2affine.infinity", G2Affine, infinity)
+    O("g1.x", G1, x) O("g1.y", G1, y) O("g1.z", G1, z) O("g2.x", G2, x) O("g2.y", G2, y) O("g2.z", G2, z)
+    O("fq2.c0", Fq2, c0) O("fq2.c1", Fq2, c1) O("fq6.c0", Fq6, c0) O("fq6.c1", Fq6, c1) O("fq6.c2", Fq6, c2) O("fq12.c0", Fq12, c0) O("fq12.c1", Fq12, c1)
+    O("g2prepared.coeffs", G2Prepared, coeffs) O("g2prepared.infinity", G2Prepared, infinity)
+    O("affinepair.g1", AffinePair, g1) O("affinepair.g2", AffinePair, g2) O("preparedpair.g1", PreparedPair, g1) O("preparedpair.g2", PreparedPair, g2)
+    O("millertriple.a", MillerTriple, a) O("millertriple.b", MillerTriple, b) O("millertriple.c", MillerTriple, c)
+#undef O
+    return -1;
 }
 
 EX int vk_word_bits(void) { return 8 * (int) sizeof(BigInt<384>::word_t); }
